@@ -180,6 +180,13 @@ func genKOp0(r *rand.Rand) *KOp {
 			case 1:
 				o.Append = true
 				o.Val = sp(pick(r, []string{"x", "3", "}"}))
+				if r.Intn(3) == 0 {
+					// an append that also insists on there being nothing (or names no version): every option together
+					o.AddOnly = r.Intn(2) == 0
+					if !o.AddOnly || r.Intn(2) == 0 {
+						o.CasMode = "zero"
+					}
+				}
 			case 2, 3:
 				o.AddOnly = true
 			case 4:
@@ -630,7 +637,11 @@ func genMotif(r *rand.Rand, m int, in *kvInput, exists map[string]bool, hot []st
 		case 1:
 			return &KOp{Kind: "AddRaw", Val: sp(pick(r, rawBodies))}
 		case 2:
-			return &KOp{Kind: "WriteCas", CasMode: "zero", AddOnly: true, Val: sp(pick(r, jsonBodies))}
+			o := &KOp{Kind: "WriteCas", CasMode: "zero", AddOnly: true, Val: sp(pick(r, jsonBodies))}
+			if r.Intn(4) == 0 {
+				o.Append, o.AddOnly, o.Val = true, r.Intn(2) == 0, sp("x")
+			}
+			return o
 		case 3:
 			return &KOp{Kind: "WriteResurrectionWithXattrs", Xs: genXs(r, false), Val: sp(pick(r, jsonBodies))}
 		default:
@@ -688,7 +699,12 @@ func genMotif(r *rand.Rand, m int, in *kvInput, exists map[string]bool, hot []st
 			default:
 				kv(&KOp{Kind: "Incr", Amt: 1, Deflt: 7})
 			}
-			kv(&KOp{Kind: "WriteCas", CasMode: "zero", Val: sp(pick(r, jsonBodies)), AddOnly: r.Intn(2) == 0})
+			ins := &KOp{Kind: "WriteCas", CasMode: "zero", Val: sp(pick(r, jsonBodies)), AddOnly: r.Intn(2) == 0}
+			if r.Intn(3) == 0 {
+				// ... with the append option on top: still a call that names no version of a document that is there
+				ins.Append, ins.Val, ins.Raw = true, sp(pick(r, []string{"x", "3"})), r.Intn(2) == 0
+			}
+			kv(ins)
 			kv(read())
 		}
 		if r.Intn(2) == 0 {
@@ -995,6 +1011,11 @@ func genMotif(r *rand.Rand, m int, in *kvInput, exists map[string]bool, hot []st
 		if r.Intn(3) == 0 {
 			kv(xattrWrite())
 		}
+		if r.Intn(2) == 0 {
+			// due, but still there until the sweep takes it: a call that insists on there being nothing is refused
+			in.Ops = append(in.Ops, Step{Kind: "kv", Coll: cn, Key: pick(r, kvKeys), Handle: r.Intn(in.Handles), Op: inserter(), Clock: next()})
+			in.Ops = append(in.Ops, Step{Kind: "kv", Coll: cn, Key: pick(r, kvKeys), Handle: r.Intn(in.Handles), Op: pick(r, []*KOp{{Kind: "GetRaw"}, {Kind: "GetAndTouchRaw", Exp: due()}, {Kind: "Incr", Amt: 1, Deflt: 3, Exp: due()}, {Kind: "Update", Cb: &Callback{Kind: "set", Val: sp(pick(r, jsonBodies))}, Exp: due()}}), Clock: next()})
+		}
 		var win []Step
 		for j, m := 0, 1+r.Intn(3); j < m; j++ {
 			wc, wk := cn, pick(r, kvKeys)
@@ -1008,7 +1029,7 @@ func genMotif(r *rand.Rand, m int, in *kvInput, exists map[string]bool, hot []st
 			case 2:
 				op = &KOp{Kind: pick(r, []string{"Touch", "GetAndTouchRaw"}), Exp: anyExp()}
 			case 3:
-				op = &KOp{Kind: pick(r, []string{"Add", "AddRaw"}), Exp: anyExp(), Val: sp(pick(r, jsonBodies))}
+				op = inserter()
 			case 4:
 				op = &KOp{Kind: "Delete"}
 			case 5:
@@ -1120,7 +1141,12 @@ func genMotif(r *rand.Rand, m int, in *kvInput, exists map[string]bool, hot []st
 			case 0:
 				kv(&KOp{Kind: "GetSubDocRaw", Path: path})
 			case 1:
-				kv(&KOp{Kind: "SubdocInsert", Path: path, CasMode: pick(r, []string{"zero", "current"}), Val: sp(pick(r, subdocVals[:3]))})
+				v := sp(pick(r, subdocVals[:3]))
+				kv(&KOp{Kind: "SubdocInsert", Path: path, CasMode: pick(r, []string{"zero", "current"}), Val: v})
+				if r.Intn(2) == 0 {
+					// the same value again: the property exists now, whatever it holds
+					kv(&KOp{Kind: "SubdocInsert", Path: path, CasMode: pick(r, []string{"zero", "current"}), Val: v})
+				}
 			default:
 				kv(&KOp{Kind: "WriteSubDoc", Path: path, CasMode: pick(r, []string{"zero", "current", "stale"}), Val: sp(pick(r, subdocVals))})
 			}
